@@ -178,7 +178,7 @@ def run_fuzz_stage(prop, stage, tier, seed, workdir):
     os.makedirs(art)
     seeds = os.path.join(VERIF, "corpus", prop, stage["target"])
     exe = os.path.join(BUILD, "fz", "vh", stage["binary"])
-    secs = stage.get("seconds_" + tier, 120)
+    secs = int(os.environ.get("VERIF_FUZZ_SECONDS", 0) or stage.get("seconds_" + tier, 120))
     env = env_for_runs()
     env["VH_TARGET"] = stage["target"]
     cmd = [exe, f"-fork={NPROC}", f"-max_total_time={secs}", f"-seed={seed}", f"-artifact_prefix={art}", "-print_final_stats=1",
@@ -230,6 +230,8 @@ def run_fuzz_stage(prop, stage, tier, seed, workdir):
         raw = open(f, "rb").read()
         shapes.update(struct.unpack("<%dQ" % (len(raw) // 8), raw[:len(raw) // 8 * 8]))
     execs = sum(int(x) for x in re.findall(r"stat::number_of_executed_units:\s*(\d+)", logtxt))
+    if not execs:  # fork mode prints cumulative progress lines "#N: cov: ..."
+        execs = max([int(x) for x in re.findall(r"^#(\d+): cov:", logtxt, re.M)] or [0])
     covs = [int(x) for x in re.findall(r"cov: (\d+)", logtxt)]
     agg = {"name": name, "kind": "fuzz", "cases": max(execs, magg["cases"]), "nontrivial": magg["nontrivial"], "steps": magg["steps"],
            "classes": magg["classes"], "class_cases": magg["class_cases"], "samples": magg["samples"][:4], "stopped_by": {"time": 1},
